@@ -26,7 +26,7 @@ func init() {
 			"multiple-choice questions with n = 2..4 (thorough 5) choices x all assignments of outputs {matches, differs-1, differs-2} x ALL non-empty subsets of marked letters over a..(n+1), " +
 			"plain and sealed, built in memory (WithRawMD) and run through the real renderer: Verify() is nil iff the marked set equals the set of matching choices (single-choice: and has one " +
 			"element); (4b) choices that are programs whose output differs from the question's only in white space or in the final newline; (4c) a text question and an image question over " +
-			"the same program files verified after each of seven histories of earlier verifications in the same process, all marked subsets; (1b) seal/unseal of the front matter answer " +
+			"the same program files verified after each of seven histories of earlier verifications in the same process, all marked subsets; (4d) questions verified by parse errors (verification: parse-error / no-parse-error) over an archive of n = 2..3 programs x all assignments {parses, does not parse} x all non-empty subsets of a..(n+1): accepted iff the marked programs are exactly those with (without) a parse error; (1b) seal/unseal of the front matter answer " +
 			"for every answer text incl. leading/trailing white space. Non-trivial = corrupted envelopes and questions whose marked set differs from the matching set.",
 		Assumptions: []string{"the randomness of the sealing step (crypto/rand session key, OAEP seed) is exercised with fresh values per run, not enumerated",
 			"multi-byte corruptions are not enumerated (GCM authenticates the whole AES part, OAEP the whole RSA block)"},
@@ -73,6 +73,11 @@ func replayC20(sub string, in json.RawMessage) *fw.Violation {
 		var m c20MixedInput
 		json.Unmarshal(in, &m)
 		return c20MixedCase(m)
+	}
+	if d.Kind == "parse-error" {
+		var m c20ParseErrInput
+		json.Unmarshal(in, &m)
+		return c20ParseErrCase(m)
 	}
 	switch d.Kind {
 	case "corrupt":
@@ -251,6 +256,7 @@ func runC20(w *fw.Worker) {
 	// question does not depend on which questions were verified before it (outputs are a function of program AND result type)
 	if w.Shard == 0 || w.NShards == 1 {
 		c20MixedModes(w)
+		c20ParseErrModes(w)
 	}
 	// (4b) outputs that differ from the question's output only in white space do not match: choices are programs, the question shows the output "hi\n"
 	progs := []string{"print \"hi\"", "print \" hi\"", "print \"hi\"\n  print", "print \"hi \"", "print \"ho\"", "printf \"hi\""} // index 0 matches; the last one lacks the final newline
@@ -589,4 +595,110 @@ func c20Question(d c20Input) *fw.Violation {
 			Expected: fmt.Sprint("accept=", d.Want), Observed: fmt.Sprint("accept=", accept, " ", detail)}
 	}
 	return nil
+}
+
+// (4d) questions verified by parse errors ("verification: parse-error" / "no-parse-error"): one archive of n programs, every
+// assignment of {parses, does not parse} to the programs, every non-empty subset of the letters a..(n+1) marked (the last letter
+// has no program). Accepted exactly when the marked programs are precisely those with (without) a parse error.
+type c20ParseErrInput struct {
+	Kind         string `json:"kind"`
+	Verification string `json:"verification"`
+	AnswerType   string `json:"answer_type"`
+	Broken       []bool `json:"program_has_parse_error"`
+	Answer       string `json:"answer"`
+	Want         bool   `json:"want_accept"`
+}
+
+func c20ParseErrCase(in c20ParseErrInput) *fw.Violation {
+	dir, err := os.MkdirTemp(os.Getenv("VERIF_BUILD_DIR"), "learn-")
+	if err != nil {
+		panic(err)
+	}
+	defer os.RemoveAll(dir)
+	qdir := filepath.Join(dir, "course", "unit", "exercise")
+	os.MkdirAll(qdir, 0o777)
+	var ar strings.Builder
+	for i, b := range in.Broken {
+		fmt.Fprintf(&ar, "-- %c.evy --\n", 'a'+i)
+		if b {
+			fmt.Fprintf(&ar, "print \"x%d\n", i) // unterminated string; the programs of one archive must differ
+		} else {
+			fmt.Fprintf(&ar, "print \"x%d\"\n", i)
+		}
+	}
+	os.WriteFile(filepath.Join(qdir, "q.txtar"), []byte(ar.String()), 0o666)
+	fm := "type: question\ndifficulty: easy\nanswer-type: " + in.AnswerType + "\nanswer: " + in.Answer + "\nverification: " + in.Verification + "\n"
+	md := "Which program causes a parse error?\n\n- [answer](q.txtar \"evy:source\")\n"
+	accept, detail := false, ""
+	func() {
+		defer func() {
+			if r := recover(); r != nil {
+				detail = "PANIC: " + fmt.Sprint(r)
+			}
+		}()
+		m, err := learn.NewQuestionModel(filepath.Join(qdir, "q.md"), learn.WithRawMD(fm, md))
+		if err != nil {
+			detail = "construction: " + err.Error()
+			return
+		}
+		if err := m.Verify(); err != nil {
+			detail = "verify: " + err.Error()
+			return
+		}
+		accept = true
+	}()
+	if strings.HasPrefix(detail, "PANIC") {
+		return &fw.Violation{Sub: "parse-error", Signature: "gopanic", What: "verification panicked", Input: in, Observed: detail}
+	}
+	if strings.HasPrefix(detail, "construction") {
+		return &fw.Violation{Sub: "parse-error", Signature: "parse-error-question-rejected", What: "a well-formed parse-error question cannot be built", Input: in, Expected: "built", Observed: detail}
+	}
+	if accept != in.Want {
+		sig := "parse-error-accepts-wrong-key"
+		if in.Want {
+			sig = "parse-error-rejects-right-key"
+		}
+		return &fw.Violation{Sub: "parse-error", Signature: sig, What: "Verify() does not accept exactly the parse-error questions whose marked programs are the ones with (without) a parse error", Input: in,
+			Expected: fmt.Sprint("accept=", in.Want), Observed: fmt.Sprint("accept=", accept, " ", detail)}
+	}
+	return nil
+}
+
+func c20ParseErrModes(w *fw.Worker) {
+	for _, verification := range []string{"parse-error", "no-parse-error"} {
+		for _, atype := range []string{"multiple-choice", "single-choice"} {
+			for n := 2; n <= 3; n++ {
+				for code := 0; code < 1<<n; code++ {
+					broken := make([]bool, n)
+					for i := range broken {
+						broken[i] = code&(1<<i) != 0
+					}
+					for mask := 1; mask < 1<<(n+1); mask++ {
+						var marked []string
+						want := mask < 1<<n // the letter after the last program matches nothing
+						for i := 0; i <= n; i++ {
+							on := mask&(1<<i) != 0
+							if on {
+								marked = append(marked, string(rune('a'+i)))
+							}
+							if i < n {
+								want = want && on == (broken[i] == (verification == "parse-error"))
+							}
+						}
+						if atype == "single-choice" {
+							want = want && len(marked) == 1
+						}
+						in := c20ParseErrInput{Kind: "parse-error", Verification: verification, AnswerType: atype, Broken: broken, Answer: strings.Join(marked, ", "), Want: want}
+						w.RunCase(fmt.Sprint("parse-error", verification, atype, broken, marked), func() *fw.Violation {
+							if !want {
+								w.Nontrivial()
+							}
+							w.Count("parse-error-questions", 1)
+							return c20ParseErrCase(in)
+						})
+					}
+				}
+			}
+		}
+	}
 }
